@@ -124,7 +124,7 @@ theorem any_field (cfg : EncCfg) (dcfg : DecCfg) (o : EncOpts) (hi : o.ifNotEmpt
 theorem elem_of_goodS {pf : Profile} {dm : Bool} {t : Ty} {v : Val} {b : Bytes} (h : GoodS pf dm t v b) :
     ∃ x, b = x.ser ∧ Elem dm x ∧ IsBer pf t v x := by
   obtain ⟨x, hb, hw, hn, hd, hber⟩ := h
-  exact ⟨x, hb, ⟨hw, hn, hd⟩, hber⟩
+  exact ⟨x, hb, ⟨hw, hn, fun h => lenForm_allDef hd h⟩, hber⟩
 
 theorem with_ine (o : EncOpts) (hi : o.ifNotEmpty = false) : { o with ifNotEmpty := false } = o := by
   cases o; simp_all
